@@ -349,6 +349,37 @@ func hostilePrograms() []hostile {
 			return true
 		}},
 	)
+	// everything the library hands to its caller is the caller's: results of every
+	// reader, of the query and look-up functions, and the exported state of an
+	// interpreter are overwritten through the Go API (reflection walk over slices
+	// up to their capacity, maps, exported fields)
+	hs = append(hs, hostile{"results of all readers, queries and look-ups and an interpreter's exported state overwritten by the caller", func() bool {
+		for _, in := range append(corpus.Fonts(), corpus.FontsT1gen()...) {
+			if f, err := type1.Read(bytes.NewReader(in.Data)); err == nil {
+				scribbleAll(f.GlyphList(), f.BuiltinEncoding(), f.WidthsMapPDF())
+				scribbleAll(f)
+			}
+		}
+		for _, in := range corpus.CMaps() {
+			if d, err := postscript.ReadCMap(bytes.NewReader(in.Data)); err == nil {
+				scribbleAll(d)
+			}
+		}
+		for _, in := range corpus.AFMs() {
+			if m, err := afm.Read(bytes.NewReader(in.Data)); err == nil {
+				scribbleAll(m.GlyphList())
+				scribbleAll(m)
+			}
+		}
+		for _, n := range []string{"A", "dalethatafpatah", "lamedholamdagesh_A", "a62", "uni00410042", "f_f_i.alt"} {
+			scribbleAll(names.ToUnicode(n, false), names.ToUnicode(n, true))
+		}
+		intp := postscript.NewInterpreter()
+		intp.ExecuteString("/CIDInit /ProcSet findresource begin 12 dict begin begincmap /CMapName /H def 1 begincodespacerange <00> <ff> endcodespacerange 1 begincidrange <00> <ff> 0 endcidrange endcmap CMapName currentdict /CMap defineresource pop end end /F 3 dict dup /FontType 1 put definefont StandardEncoding errordict")
+		before := pscmp.Canon(opTable, intp)
+		scribbleAll(intp)
+		return pscmp.Canon(opTable, intp) != before
+	}})
 	// inputs that differ from everything the probe workload reads: whatever a
 	// reader or writer keeps in package-level scratch storage is left in a
 	// different state than after the probe
